@@ -15,11 +15,16 @@ use gimli::write as w;
 use serde_json::json;
 use std::collections::BTreeMap;
 
+#[path = "c11_order.rs"]
+pub mod order;
+#[path = "c11_shape.rs"]
+pub mod shape;
+
 pub fn info() -> PropInfo {
     PropInfo {
         id: "C11",
         level: "exploration",
-        rule: "Two streams. `cat`: complete enumeration of 64 encodings (versions 2-5 x Dwarf32/64 x address sizes 1/2/4/8 x both byte orders) x every write::AttributeValue variant (40, incl. DebugInfoRef::Symbol) x 4 payload variants (boundary values), the attribute placed on an entry that precedes a referenced entry (UnitRef from the root, DebugInfoRef from a second unit, sibling pointers on), written with Dwarf::write, and for variants that do not need a second unit also with DwarfUnit::write. `rand`: seeded models of 1-4 units (independent encodings, shared byte order), trees of 1-200 entries (flat / chain / bushy shapes), entries created through add or reserve..add_reserved (reserved at an earlier step), reserved-never-added ids, optional deleted sub-tree, DW_TAG_base_type entries anywhere among the root's children, sibling flags, 0-18 attributes per entry drawn from all 40 value kinds with boundary payloads (attribute names chosen so that the reader's interpretation is defined), references forward/backward/self/cross-unit, attribute expressions (30 operation builders incl. typed ULEB references to earlier entries, call4, call_ref, implicit_pointer, entry_value, skip/bra) and location-list expressions (ULEB references in both directions), 0-3 range and 0-3 location lists per unit incl. exact duplicates and shared use, .debug_str/.debug_line_str pools with duplicates, optional line program (1-5 files, 1-2 sequences, string forms inline/strp/line_strp in v5, format possibly differing from the unit's); 25% of the cases get one injected unencodable item (address or offset too large for its field, 256-byte typed constant, forward ULEB reference, reference to a deleted entry, LineProgramRef without program, DebugInfoRef::Symbol, unit version 1/6, symbolic address with the plain writer). Every case is written into Sections<EndianVec>; the Ok/Err outcome is compared with the model's classification; on Ok the sections are read back with read::Dwarf and compared: unit headers, forest (tag, depth, order incl. base types first), attribute names, raw and normalised values, references by identity of the target entry, sibling pointers (next sibling or the parent's null entry), strings through attr_string, lists through attr_ranges/attr_locations (expression bytes from the harness encoder), DW_AT_stmt_list and LineProgramRef through the unit's line program (files and rows), FileIndex through the line header. A case is non-trivial when it has at least 2 entries or one non-identity attribute; distinct cases are counted by a digest of the complete case description.",
+        rule: "Five streams. `cat`: complete enumeration of 64 encodings (versions 2-5 x Dwarf32/64 x address sizes 1/2/4/8 x both byte orders) x every write::AttributeValue variant (40, incl. DebugInfoRef::Symbol) x 4 payload variants (boundary values), the attribute placed on an entry that precedes a referenced entry (UnitRef from the root, DebugInfoRef from a second unit, sibling pointers on), written with Dwarf::write, and for variants that do not need a second unit also with DwarfUnit::write. `rand`: seeded models of 1-4 units (independent encodings, shared byte order), trees of 1-200 entries (flat / chain / bushy shapes), entries created through add or reserve..add_reserved (reserved at an earlier step), reserved-never-added ids, optional deleted sub-tree, DW_TAG_base_type entries anywhere among the root's children, sibling flags, 0-18 attributes per entry drawn from all 40 value kinds with boundary payloads (attribute names chosen so that the reader's interpretation is defined), references forward/backward/self/cross-unit, attribute expressions (30 operation builders incl. typed ULEB references to earlier entries, call4, call_ref, implicit_pointer, entry_value, skip/bra) and location-list expressions (ULEB references in both directions), 0-3 range and 0-3 location lists per unit incl. exact duplicates and shared use, .debug_str/.debug_line_str pools with duplicates, optional line program (1-5 files, 1-2 sequences, string forms inline/strp/line_strp in v5, format possibly differing from the unit's); 25% of the cases get one injected unencodable item (address or offset too large for its field, 256-byte typed constant, forward ULEB reference, reference to a deleted entry, LineProgramRef without program, DebugInfoRef::Symbol, unit version 1/6, symbolic address with the plain writer). Every case is written into Sections<EndianVec>; the Ok/Err outcome is compared with the model's classification; on Ok the sections are read back with read::Dwarf and compared: unit headers, forest (tag, depth, order incl. base types first), attribute names, raw and normalised values, references by identity of the target entry, sibling pointers (next sibling or the parent's null entry), strings through attr_string, lists through attr_ranges/attr_locations (expression bytes from the harness encoder), DW_AT_stmt_list and LineProgramRef through the unit's line program (files and rows), FileIndex through the line header. `shape` (abbreviation sharing): enumeration of 64 encodings x 39 value kinds x run lengths 2-6 (quick: one run length per encoding and kind, all five for ImplicitConst; thorough: all, three seeds each): under one parent a run of 2-6 sibling entries of identical shape (tag, no children, attribute names and forms: identity, the kind under test, an ImplicitConst, sometimes a fourth attribute, in a seeded order) with pairwise different values of the kind under test and pairwise different constants, plus an exact duplicate, an entry with the same constant but another main value and one with the same main value but another constant; mixed in (contiguous or shuffled) 1-2 entries for each of seven near misses that differ from the run in exactly one shape component (tag only, children flag only, sibling attribute only, one form only, attribute order only, one attribute name only, attribute count) and partly repeat the run's values; 2-3 cousins of the run plus near misses under a second parent of the same shape; a referenced entry after all of them; every sixteenth case puts 130 entries of pairwise different shape first so that the run gets two-byte abbreviation codes; one third of the cases has a second unit (half of them of another version) built the same way with other values and references in both directions. These cases are written with Dwarf::write and judged by the same read-back oracle (a merged abbreviation shows as a wrong constant, tag, nesting or attribute list); the number of abbreviation declarations is compared with the model's number of distinct shapes only as a secondary observation. `ordcat` and `order` (write order): a model M that the converter maps back to the same request (see assumptions) is written with Dwarf::write into S0, S0 is verified against M, then S0 is read and re-emitted through write::Dwarf::convert -> read_unit -> ConvertUnit::convert with ConvertUnit::write called for a subset of the units right after their conversion and Dwarf::write at the end, once per subset policy {none, all, first only, last only, even positions, odd positions, seeded random subset} (identical subsets once); the final sections of every policy are verified against the same M with the same oracle (forest, attribute meanings, every reference by identity of the target incl. cross-unit DebugInfoRef in both directions and references from attribute expressions and location-list expressions in .debug_loc and .debug_loclists, strings, lists, line programs), the units being expected in .debug_info in the order incrementally written units first; a write error on this path is a violation, a converter error skips the case. Each such model is also re-emitted once with one seeded unit dropped through ConvertUnit::skip and the others written late, incrementally or mixed: when nothing refers to the dropped unit the result must read back as M without that unit, when something does the request is unencodable and Ok is a violation (a refusal is expected; the pinned tree panics instead, see assumptions). `ordcat` enumerates 64 encodings x 4 variants of a fixed three-unit model (units of different version and format, every unit refers to both others from an attribute, an attribute expression and a location list); `order` uses seeded models of 2-4 units (1 in 12% of the cases) with additional cross-unit references. A case is non-trivial when it has at least 2 entries or one non-identity attribute; distinct cases are counted by a digest of the complete case description.",
         assumptions: &[
             "forms newer than the unit version (data16, line_strp, strp_sup, ref_sup in v2-4) are written by the pinned tree and read back fine; they are classified encodable because the output is neither corrupt nor ambiguous",
             "the chosen DW_FORM is only a secondary observation (secondary.form_differs), the verdict is on the read-back meaning",
@@ -27,10 +32,18 @@ pub fn info() -> PropInfo {
             "FileIndex(None) only has to read back as an unsigned constant",
             "a version 2 DW_FORM_ref_addr / DW_OP_implicit_pointer in a unit with address size 1 or 2 is address sized; when the model cannot prove that every offset fits (upper bound of the section size), Ok with a correct read-back and Err(ValueTooLarge) are both accepted (outcome.unjudged)",
             "range/location lists use shapes that every version can encode (C16 judges list encodability); ranges are kept away from 0 and from the tombstone values so that the resolved iterators report all of them",
-            "DwarfUnit::write is used for single-unit cases without cross-unit references (the API hands out no UnitId); the conversion API's incremental ConvertUnit::write is exercised by C12/C19, not here",
+            "DwarfUnit::write is used for single-unit cases without cross-unit references (the API hands out no UnitId)",
+            "incremental per-unit writing is only reachable through the conversion API, so the write-order streams re-emit sections that Dwarf::write produced; their models are restricted to requests the converter maps back unchanged (no raw expression bytes, no DW_OP_piece size >= 2^60, no DW_OP_deref_size of the address size, constants only under DW_AT_const_value / discr_value / alignment / vendor names, expressions only under names the reader treats as expressions in versions 2-3 and not DW_AT_vtable_elem_location, no sibling flag on the root, no line sequence without rows, no version 5 FileIndex without a line program, no symbolic addresses, no injected unencodable item); whether the converter is faithful outside that subset is C12's question; a ConvertError skips the case (order.convert_err)",
+            "with incremental writes the units are expected in .debug_info in the order they were written (incrementally written units first, in conversion order, then the others)",
+            "open finding, skipped by exact signature (c11_order.rs SKIP_KNOWN_PANIC_REF_TO_SKIPPED_UNIT, counted as order.skip.known_panic, GV_C11_STRICT=1 reports it): a reference to an entry of a unit dropped with ConvertUnit::skip makes Dwarf::write panic (index out of bounds in UnitOffsets::debug_info_offset, src/write/unit.rs) instead of returning Error::InvalidReference",
+            "abbreviation sharing itself is not demanded: the number of declarations per table is a secondary observation (abbrev.count_as_model / secondary.abbrev_count_differs)",
             "String payloads are NUL-free, Unit::reserve ids used in references are always added later (documented preconditions)",
         ],
-        exhaustive_subspaces: &["64 encodings x 40 attribute value variants x 4 payload variants, attribute placed before a referenced entry (stream `cat`, both profiles)"],
+        exhaustive_subspaces: &[
+            "64 encodings x 40 attribute value variants x 4 payload variants, attribute placed before a referenced entry (stream `cat`, both profiles)",
+            "64 encodings x 4 variants of the three-unit cross-reference model x 7 incremental-write subset policies (stream `ordcat`, both profiles)",
+            "thorough: 64 encodings x 39 value kinds x run lengths 2-6 of same-shape entries with the seven one-component near misses (stream `shape`)",
+        ],
         must_observe: MUST,
         run,
     }
@@ -51,6 +64,27 @@ const MUST: &[&str] = &[
     "ref.to_reserved", "entry.reserved", "entry.phantom_reserved", "entry.deleted", "basetype.moved", "sibling.next", "sibling.parent_null", "sibling.root",
     "strings.dup", "lists.shared", "lists.dup", "line.program", "line.rows", "line.fileindex", "expr.uleb_ref", "expr.info_ref", "expr.in_list", "expr.branch", "expr.entry_value",
     "tree.big", "tree.depth5",
+    // abbreviation sharing (stream `shape`)
+    "shape.run.2", "shape.run.3", "shape.run.4", "shape.run.5", "shape.run.6", "shape.ver.2", "shape.ver.3", "shape.ver.4", "shape.ver.5",
+    "shape.near.tag", "shape.near.children", "shape.near.sibling", "shape.near.form", "shape.near.order", "shape.near.name", "shape.near.count",
+    "shape.cousins", "shape.const.different", "shape.const.equal", "shape.units2", "shape.units2.mixed_versions", "shape.many_shapes", "shape.mixed", "shape.contiguous",
+    "shape.kind.Address", "shape.kind.Block", "shape.kind.Data1", "shape.kind.Data2", "shape.kind.Data4", "shape.kind.Data8", "shape.kind.Data16", "shape.kind.Sdata", "shape.kind.Udata",
+    "shape.kind.ImplicitConst", "shape.kind.Exprloc", "shape.kind.Flag", "shape.kind.FlagPresent", "shape.kind.UnitRef", "shape.kind.DebugInfoRef", "shape.kind.DebugInfoRefSup",
+    "shape.kind.LineProgramRef", "shape.kind.LocationListRef", "shape.kind.DebugMacinfoRef", "shape.kind.DebugMacroRef", "shape.kind.RangeListRef", "shape.kind.DebugTypesRef",
+    "shape.kind.StringRef", "shape.kind.DebugStrRefSup", "shape.kind.LineStringRef", "shape.kind.String", "shape.kind.Encoding", "shape.kind.DecimalSign", "shape.kind.Endianity",
+    "shape.kind.Accessibility", "shape.kind.Visibility", "shape.kind.Virtuality", "shape.kind.Language", "shape.kind.AddressClass", "shape.kind.IdentifierCase",
+    "shape.kind.CallingConvention", "shape.kind.Inline", "shape.kind.Ordering", "shape.kind.FileIndex",
+    "abbrev.model.differ_only_in_implicit_const", "abbrev.model.shared_shape", "abbrev.model.code_2_bytes", "abbrev.count_as_model",
+    // write order (streams `ordcat`, `order`)
+    "order.s0_verified", "order.policy.none", "order.policy.all", "order.policy.first", "order.policy.last", "order.policy.alt_even", "order.policy.alt_odd", "order.policy.random",
+    "order.units.2", "order.units.3", "order.units.4", "order.phys_permuted", "order.all_incremental.cross_refs",
+    "order.all_incremental.attr", "order.all_incremental.expr", "order.all_incremental.loc", "order.all_incremental.loclists",
+    "order.xref.attr.inc_to_later_inc", "order.xref.attr.inc_to_earlier_inc", "order.xref.attr.inc_to_late", "order.xref.attr.late_to_inc", "order.xref.attr.late_to_late",
+    "order.xref.expr.inc_to_later_inc", "order.xref.expr.inc_to_earlier_inc", "order.xref.expr.inc_to_late", "order.xref.expr.late_to_inc", "order.xref.expr.late_to_late",
+    "order.xref.loc.inc_to_later_inc", "order.xref.loc.inc_to_earlier_inc", "order.xref.loc.inc_to_late", "order.xref.loc.late_to_inc", "order.xref.loc.late_to_late",
+    "order.xref.loclists.inc_to_later_inc", "order.xref.loclists.inc_to_earlier_inc", "order.xref.loclists.inc_to_late", "order.xref.loclists.late_to_inc", "order.xref.loclists.late_to_late",
+    "order.selfref.attr.inc", "order.selfref.expr.inc", "order.selfref.loc.inc", "order.selfref.loclists.inc",
+    "order.skip.verified", "order.skip.others_late", "order.skip.others_incremental", "order.skip.others_mixed",
 ];
 
 // ================================================================ sections
@@ -229,6 +263,8 @@ pub struct RUnit {
     pub fmt64: bool,
     pub unit_off: u64,
     pub total_len: u64,
+    /// offset of the unit's abbreviation table in .debug_abbrev
+    pub abbrev_off: u64,
     pub low_pc: u64,
     pub recs: Vec<Rec>,
     pub line: Option<Result<RLine, String>>,
@@ -253,9 +289,10 @@ pub fn read_back(secs: &Secs, le: bool) -> Result<Vec<RUnit>, String> {
         };
         let unit_off = header.offset().0 as u64;
         let total_len = header.length_including_self() as u64;
+        let abbrev_off = header.debug_abbrev_offset().0 as u64;
         let unit = dwarf.unit(header).map_err(|e| format!("Dwarf::unit: {e:?}"))?;
         let enc = unit.encoding();
-        let mut ru = RUnit { version: enc.version, addr: enc.address_size, fmt64: enc.format == gimli::Format::Dwarf64, unit_off, total_len, low_pc: unit.low_pc, ..Default::default() };
+        let mut ru = RUnit { version: enc.version, addr: enc.address_size, fmt64: enc.format == gimli::Format::Dwarf64, unit_off, total_len, abbrev_off, low_pc: unit.low_pc, ..Default::default() };
         // line program
         if let Some(ilp) = unit.line_program.clone() {
             ru.line = Some((|| -> Result<RLine, String> {
@@ -766,6 +803,20 @@ pub fn run_case(ctx: &mut Ctx, stream: &str, spec: &CaseSpec, symbolic_plain: bo
 }
 
 pub fn compare_readback(ctx: &mut Ctx, stream: &str, spec: &CaseSpec, secs: &Secs) {
+    compare_readback_at(ctx, stream, spec, secs, None, "");
+}
+
+/// `phys`: the model unit expected at each position of `.debug_info` (None: model order);
+/// model units that are not listed are expected to be absent (nothing may refer to them).
+/// `pfx` is put in front of every violation signature.  Returns true when nothing was flagged.
+pub fn compare_readback_at(ctx: &mut Ctx, stream: &str, spec: &CaseSpec, secs: &Secs, phys: Option<&[usize]>, pfx: &str) -> bool {
+    let before = ctx.obs.get("violations_raw").copied().unwrap_or(0);
+    compare_readback_inner(ctx, stream, spec, secs, phys, pfx);
+    ctx.obs.get("violations_raw").copied().unwrap_or(0) == before
+}
+
+fn compare_readback_inner(ctx: &mut Ctx, stream: &str, spec: &CaseSpec, secs: &Secs, phys: Option<&[usize]>, pfx: &str) {
+    let sg = |s: &str| -> String { format!("{pfx}{s}") };
     let desc = case_input(spec);
     let input = || json!({"spec": desc, "sections": secs.json()});
     let input: &dyn Fn() -> serde_json::Value = &input;
@@ -774,46 +825,82 @@ pub fn compare_readback(ctx: &mut Ctx, stream: &str, spec: &CaseSpec, secs: &Sec
     let runits = match rb {
         Ok(u) => u,
         Err(e) => {
-            ctx.fail("readback.error", &format!("reading the emitted sections back failed: {e}"), input);
+            ctx.fail(&sg("readback.error"), &format!("reading the emitted sections back failed: {e}"), input);
             return;
         }
     };
-    if !ctx.check_eq("readback.unit_count", &spec.units.len(), &runits.len(), input) {
+    let want_units = phys.map_or(spec.units.len(), |p| p.len());
+    if !ctx.check_eq(&sg("readback.unit_count"), &want_units, &runits.len(), input) {
         return;
     }
-    // ---- identity map
-    let mut offs = Offs::default();
+    // ---- units are contiguous in the section; bring them into model order
     let mut end = 0u64;
-    for (u, ru) in runits.iter().enumerate() {
-        if !ctx.check_eq("readback.unit_offset", &end, &ru.unit_off, input) {
+    for ru in runits.iter() {
+        if !ctx.check_eq(&sg("readback.unit_offset"), &end, &ru.unit_off, input) {
             return;
         }
         end = ru.unit_off.wrapping_add(ru.total_len);
+    }
+    let mut absent = vec![false; spec.units.len()];
+    let runits: Vec<RUnit> = match phys {
+        None => runits,
+        Some(phys) => {
+            let mut slots: Vec<Option<RUnit>> = vec![None; spec.units.len()];
+            let mut placed = 0;
+            for (p, ru) in runits.into_iter().enumerate() {
+                if let Some(slot) = phys.get(p).and_then(|u| slots.get_mut(*u)) {
+                    if slot.is_none() {
+                        placed += 1;
+                    }
+                    *slot = Some(ru);
+                }
+            }
+            if placed != phys.len() {
+                ctx.harness_errors.push("C11: expected unit order names a unit twice or not at all".into());
+                return;
+            }
+            for (u, s) in slots.iter().enumerate() {
+                absent[u] = s.is_none();
+            }
+            slots.into_iter().map(|s| s.unwrap_or_default()).collect()
+        }
+    };
+    // ---- identity map
+    let mut offs = Offs::default();
+    for (u, ru) in runits.iter().enumerate() {
+        if absent[u] {
+            offs.unit.push(u64::MAX);
+            offs.die.push(BTreeMap::new());
+            continue;
+        }
         offs.unit.push(ru.unit_off);
         let mut m = BTreeMap::new();
         for rec in ru.recs.iter().filter(|r| !r.null) {
             let id = rec.attrs.iter().find(|a| a.name == ID_AT).and_then(|a| if let M::U(v) = a.raw { Some(v) } else { None });
             let Some(id) = id else {
-                ctx.fail("readback.identity_missing", &format!("unit {u}: entry at {:#x} carries no identity attribute", rec.off), input);
+                ctx.fail(&sg("readback.identity_missing"), &format!("unit {u}: entry at {:#x} carries no identity attribute", rec.off), input);
                 return;
             };
             if (id >> 12) != u as u64 + 1 {
-                ctx.fail("readback.identity_foreign", &format!("unit {u}: entry at {:#x} carries identity {id:#x} of another unit", rec.off), input);
+                ctx.fail(&sg("readback.identity_foreign"), &format!("unit {u}: entry at {:#x} carries identity {id:#x} of another unit", rec.off), input);
                 return;
             }
             if m.insert((id & 0xfff) as usize, rec.off).is_some() {
-                ctx.fail("readback.identity_twice", &format!("unit {u}: identity {id:#x} seen twice"), input);
+                ctx.fail(&sg("readback.identity_twice"), &format!("unit {u}: identity {id:#x} seen twice"), input);
                 return;
             }
         }
         offs.die.push(m);
     }
-    ctx.check_eq("readback.section_end", &(secs.get(gimli::SectionId::DebugInfo).len() as u64), &end, input);
+    ctx.check_eq(&sg("readback.section_end"), &(secs.get(gimli::SectionId::DebugInfo).len() as u64), &end, input);
     let c = Cmp { spec, runits: &runits, offs };
 
     for (u, (us, ru)) in spec.units.iter().zip(runits.iter()).enumerate() {
+        if absent[u] {
+            continue;
+        }
         let enc = us.enc;
-        ctx.check_eq("readback.encoding", &(enc.version, enc.addr, enc.fmt64), &(ru.version, ru.addr, ru.fmt64), input);
+        ctx.check_eq(&sg("readback.encoding"), &(enc.version, enc.addr, enc.fmt64), &(ru.version, ru.addr, ru.fmt64), input);
         let order = us.model_order();
         let order_pos: BTreeMap<usize, usize> = order.iter().enumerate().map(|(i, (k, _))| (*k, i)).collect();
         let entries: Vec<(usize, &crate::props::c11::Rec)> = ru.recs.iter().enumerate().filter(|(_, r)| !r.null).collect();
@@ -826,7 +913,7 @@ pub fn compare_readback(ctx: &mut Ctx, stream: &str, spec: &CaseSpec, secs: &Sec
             })
             .collect();
         let exp_shape: Vec<(usize, usize, u16)> = order.iter().map(|(k, d)| (*k, *d, us.entries[*k].tag)).collect();
-        if !ctx.check_eq("forest.shape", &exp_shape, &got_shape, input) {
+        if !ctx.check_eq(&sg("forest.shape"), &exp_shape, &got_shape, input) {
             continue;
         }
         // coverage of the tree features
@@ -855,7 +942,7 @@ pub fn compare_readback(ctx: &mut Ctx, stream: &str, spec: &CaseSpec, secs: &Sec
         }
         // low_pc as the unit reports it
         let lowpc = us.entries[0].attrs.iter().find(|a| a.name == dw::DW_AT_low_pc.0).and_then(|a| if let ValSpec::Address(x) = &a.val { Some(x.constant(&spec.symvals)) } else { None }).unwrap_or(0);
-        ctx.check_eq("readback.low_pc", &lowpc, &ru.low_pc, input);
+        ctx.check_eq(&sg("readback.low_pc"), &lowpc, &ru.low_pc, input);
 
         // line program
         match (&us.line, &ru.line) {
@@ -863,19 +950,19 @@ pub fn compare_readback(ctx: &mut Ctx, stream: &str, spec: &CaseSpec, secs: &Sec
                 ctx.obs("line.program");
                 let exp = expected_lines(lp, &spec.symvals);
                 let got: Vec<(u64, u64, Vec<u8>, bool)> = rl.rows.iter().map(|(a, l, f, e)| if *e { (*a, 0, vec![], true) } else { (*a, *l, f.clone(), false) }).collect();
-                if ctx.check_eq("line.rows", &exp, &got, input) && exp.len() > lp.seqs.len() {
+                if ctx.check_eq(&sg("line.rows"), &exp, &got, input) && exp.len() > lp.seqs.len() {
                     ctx.obs("line.rows");
                 }
                 // every model file is in the table (version 5 lists the primary file first)
                 for (name, _) in &lp.files {
                     if !rl.files.iter().any(|f| f == name) {
-                        ctx.fail("line.file_missing", &format!("unit {u}: file {:?} is not in the line program's file table", String::from_utf8_lossy(name)), input);
+                        ctx.fail(&sg("line.file_missing"), &format!("unit {u}: file {:?} is not in the line program's file table", String::from_utf8_lossy(name)), input);
                     }
                 }
             }
-            (Some(_), Some(Err(e))) => ctx.fail("line.error", &format!("unit {u}: line program does not read back: {e}"), input),
-            (Some(_), None) => ctx.fail("line.missing", &format!("unit {u}: the unit has no DW_AT_stmt_list / line program"), input),
-            (None, Some(_)) => ctx.fail("line.unexpected", &format!("unit {u}: a line program was read back although the model has none"), input),
+            (Some(_), Some(Err(e))) => ctx.fail(&sg("line.error"), &format!("unit {u}: line program does not read back: {e}"), input),
+            (Some(_), None) => ctx.fail(&sg("line.missing"), &format!("unit {u}: the unit has no DW_AT_stmt_list / line program"), input),
+            (None, Some(_)) => ctx.fail(&sg("line.unexpected"), &format!("unit {u}: a line program was read back although the model has none"), input),
             (None, None) => {}
         }
 
@@ -888,7 +975,7 @@ pub fn compare_readback(ctx: &mut Ctx, stream: &str, spec: &CaseSpec, secs: &Sec
             // sibling pointer
             if e.sibling && has_children {
                 let Some(sa) = rattrs.first().filter(|a| a.name == dw::DW_AT_sibling.0) else {
-                    ctx.fail("sibling.missing", &format!("unit {u} entry {k}: sibling flag set and children present, but the first attribute is not DW_AT_sibling"), input);
+                    ctx.fail(&sg("sibling.missing"), &format!("unit {u} entry {k}: sibling flag set and children present, but the first attribute is not DW_AT_sibling"), input);
                     continue;
                 };
                 // the next record at the same depth (entry or the parent's null), or the unit end
@@ -899,14 +986,14 @@ pub fn compare_readback(ctx: &mut Ctx, stream: &str, spec: &CaseSpec, secs: &Sec
                     None => (ru.total_len, "sibling.root"),
                 };
                 if d == 0 && next.is_some() {
-                    ctx.fail("sibling.root_has_sibling", "a record follows the root at depth 0", input);
+                    ctx.fail(&sg("sibling.root_has_sibling"), "a record follows the root at depth 0", input);
                 }
-                if ctx.check_eq("sibling.target", &M::UnitRef(want), &sa.raw, input) {
+                if ctx.check_eq(&sg("sibling.target"), &M::UnitRef(want), &sa.raw, input) {
                     ctx.obs(what);
                 }
                 rattrs = &rattrs[1..];
             } else if rattrs.iter().any(|a| a.name == dw::DW_AT_sibling.0) {
-                ctx.fail("sibling.unexpected", &format!("unit {u} entry {k}: DW_AT_sibling present although not requested or no children"), input);
+                ctx.fail(&sg("sibling.unexpected"), &format!("unit {u} entry {k}: DW_AT_sibling present although not requested or no children"), input);
                 continue;
             }
             // the root gets DW_AT_stmt_list from the writer when a program is in use
@@ -916,7 +1003,7 @@ pub fn compare_readback(ctx: &mut Ctx, stream: &str, spec: &CaseSpec, secs: &Sec
             }
             let names_exp: Vec<u16> = exp_attrs.iter().map(|a| a.name).collect();
             let names_got: Vec<u16> = rattrs.iter().map(|a| a.name).collect();
-            if !ctx.check_eq("attrs.names", &names_exp, &names_got, input) {
+            if !ctx.check_eq(&sg("attrs.names"), &names_exp, &names_got, input) {
                 continue;
             }
             for (a, ra) in exp_attrs.iter().zip(rattrs.iter()) {
@@ -927,7 +1014,7 @@ pub fn compare_readback(ctx: &mut Ctx, stream: &str, spec: &CaseSpec, secs: &Sec
                         }
                     }
                     Err(msg) => {
-                        ctx.fail(&format!("attr.{}", a.val.kind()), &format!("unit {u} ({}) entry {k} attribute {:#x} ({}): {msg}", enc.label(), a.name, a.val.kind()), input);
+                        ctx.fail(&sg(&format!("attr.{}", a.val.kind())), &format!("unit {u} ({}) entry {k} attribute {:#x} ({}): {msg}", enc.label(), a.name, a.val.kind()), input);
                     }
                 }
             }
@@ -949,7 +1036,7 @@ pub fn compare_readback(ctx: &mut Ctx, stream: &str, spec: &CaseSpec, secs: &Sec
                         }
                         if let Some(prev) = rl_off.insert(canon, *o) {
                             ctx.obs("lists.shared");
-                            ctx.check_eq("lists.shared_offset", &prev, o, input);
+                            ctx.check_eq(&sg("lists.shared_offset"), &prev, o, input);
                         }
                     }
                     (ValSpec::LocationListRef(l), M::LocRef(o), _) => {
@@ -959,7 +1046,7 @@ pub fn compare_readback(ctx: &mut Ctx, stream: &str, spec: &CaseSpec, secs: &Sec
                         }
                         if let Some(prev) = ll_off.insert(canon, *o) {
                             ctx.obs("lists.shared");
-                            ctx.check_eq("lists.shared_offset", &prev, o, input);
+                            ctx.check_eq(&sg("lists.shared_offset"), &prev, o, input);
                         }
                     }
                     (ValSpec::StringRef(s), _, M::StrRef(o)) => {
@@ -975,7 +1062,119 @@ pub fn compare_readback(ctx: &mut Ctx, stream: &str, spec: &CaseSpec, secs: &Sec
             }
         }
     }
+    observe_abbrevs(ctx, spec, &runits, &absent, secs);
     ctx.sample(stream, || json!({"spec": desc.chars().take(1200).collect::<String>(), "debug_info": hex(secs.get(gimli::SectionId::DebugInfo)), "debug_abbrev": hex(secs.get(gimli::SectionId::DebugAbbrev))}));
+}
+
+// ================================================================ abbreviation tables (secondary)
+
+fn rd_uleb(d: &[u8], p: &mut usize) -> Option<u64> {
+    let mut v: u64 = 0;
+    let mut sh = 0u32;
+    loop {
+        let b = *d.get(*p)?;
+        *p += 1;
+        if sh < 64 {
+            v |= ((b & 0x7f) as u64) << sh;
+        }
+        sh += 7;
+        if b & 0x80 == 0 {
+            return Some(v);
+        }
+        if sh > 70 {
+            return None;
+        }
+    }
+}
+
+/// Declarations of the abbreviation table at `off`: (tag, children, [(name, form, implicit const)]).
+fn parse_abbrevs(d: &[u8], off: u64) -> Option<Vec<(u64, u8, Vec<(u64, u64, u64)>)>> {
+    let mut p = usize::try_from(off).ok()?;
+    let mut out = vec![];
+    loop {
+        let code = rd_uleb(d, &mut p)?;
+        if code == 0 {
+            return Some(out);
+        }
+        let tag = rd_uleb(d, &mut p)?;
+        let children = *d.get(p)?;
+        p += 1;
+        let mut attrs = vec![];
+        loop {
+            let name = rd_uleb(d, &mut p)?;
+            let form = rd_uleb(d, &mut p)?;
+            // the constant is an SLEB; its raw ULEB digits identify it just as well
+            let ic = if form == 0x21 { rd_uleb(d, &mut p)? } else { 0 };
+            if name == 0 && form == 0 {
+                break;
+            }
+            attrs.push((name, form, ic));
+        }
+        out.push((tag, children, attrs));
+        if out.len() > LIMIT {
+            return None;
+        }
+    }
+}
+
+/// Shape of a model entry as an abbreviation would describe it.
+fn model_shape(us: &UnitSpec, k: usize) -> (u16, bool, Vec<(u16, u16, i64)>) {
+    let e = &us.entries[k];
+    let has_children = !us.children_written(k).is_empty();
+    let mut attrs = vec![];
+    if e.sibling && has_children {
+        attrs.push((dw::DW_AT_sibling.0, if us.enc.fmt64 { 0x14 } else { 0x13 }, 0));
+    }
+    for a in &e.attrs {
+        let form = expected_form(&a.val, us.enc);
+        let ic = match &a.val {
+            ValSpec::ImplicitConst(v) if form == 0x21 => *v,
+            _ => 0,
+        };
+        attrs.push((a.name, form, ic));
+    }
+    if k == 0 && us.line.is_some() && !e.attrs.iter().any(|a| a.name == dw::DW_AT_stmt_list.0) {
+        attrs.push((dw::DW_AT_stmt_list.0, expected_form(&ValSpec::LineProgramRef, us.enc), 0));
+    }
+    (e.tag, has_children, attrs)
+}
+
+/// Coverage of abbreviation sharing; never a verdict (sharing is not part of the property).
+fn observe_abbrevs(ctx: &mut Ctx, spec: &CaseSpec, runits: &[RUnit], absent: &[bool], secs: &Secs) {
+    let data = secs.get(gimli::SectionId::DebugAbbrev);
+    for (u, (us, ru)) in spec.units.iter().zip(runits.iter()).enumerate() {
+        if absent.get(u).copied().unwrap_or(false) {
+            continue;
+        }
+        let order = us.model_order();
+        let mut shapes: Vec<(u16, bool, Vec<(u16, u16, i64)>)> = order.iter().map(|(k, _)| model_shape(us, *k)).collect();
+        let entries = shapes.len();
+        // shapes that differ in nothing but a constant stored in the abbreviation
+        let mut stripped: Vec<(u16, bool, Vec<(u16, u16)>)> = shapes.iter().map(|(t, c, a)| (*t, *c, a.iter().map(|(n, f, _)| (*n, *f)).collect())).collect();
+        shapes.sort();
+        shapes.dedup();
+        stripped.sort();
+        stripped.dedup();
+        if stripped.len() < shapes.len() {
+            ctx.obs("abbrev.model.differ_only_in_implicit_const");
+        }
+        if shapes.len() < entries {
+            ctx.obs("abbrev.model.shared_shape");
+        }
+        if shapes.len() >= 128 {
+            ctx.obs("abbrev.model.code_2_bytes");
+        }
+        match parse_abbrevs(data, ru.abbrev_off) {
+            Some(decls) => {
+                if decls.len() == shapes.len() {
+                    ctx.obs("abbrev.count_as_model");
+                } else {
+                    ctx.obs("secondary.abbrev_count_differs");
+                }
+            }
+            None => ctx.obs("secondary.abbrev_table_unparsed"),
+        }
+    }
 }
 
 // ================================================================ catalogue
@@ -1060,6 +1259,36 @@ fn cat_name(kind: &str) -> u16 {
         "Ordering" => 0x09,
         _ => 0x3a,
     }
+}
+
+/// Three range lists, three location lists (expressions without entry references except a
+/// typed ULEB reference to entry 2) and a line program with three files, valid under `enc`.
+pub fn aux_parts(enc: Enc, variant: u64) -> (Vec<RListSpec>, Vec<LListSpec>, LineSpec) {
+    let small = |x: u64| match enc.addr {
+        1 => ((x >> 8) & 0x3f) | 1,
+        2 => (x & 0x3fff) | 1,
+        _ => x,
+    };
+    let x = XSpec::Ops(vec![XOp::Fbreg(-8), XOp::DerefType(false, 4, 2)]);
+    let rlists = vec![
+        RListSpec { pre: vec![], base: AddrSpec::abs(small(0x1000)), pairs: vec![(1, 5)] },
+        RListSpec { pre: vec![(AddrSpec::abs(small(0x2000)), 3)], base: AddrSpec::abs(small(0x1100)), pairs: vec![(0, 2), (4, 9)] },
+        RListSpec { pre: vec![], base: AddrSpec::abs(small(0x1200)), pairs: vec![(2, 3), (3, 4), (6, 7)] },
+    ];
+    let llists = vec![
+        LListSpec { pre: vec![], base: AddrSpec::abs(small(0x1000)), pairs: vec![(1, 5, x.clone())] },
+        LListSpec { pre: vec![(AddrSpec::abs(small(0x2000)), 3, XSpec::Ops(vec![XOp::Reg(1)]))], base: AddrSpec::abs(small(0x1100)), pairs: vec![(0, 2, XSpec::Ops(vec![XOp::Reg(0)]))] },
+        LListSpec { pre: vec![], base: AddrSpec::abs(small(0x1200)), pairs: vec![(2, 3, XSpec::Ops(vec![XOp::Breg(7, -16)])), (4, 6, XSpec::Ops(vec![]))] },
+    ];
+    let line = LineSpec {
+        fmt64: enc.fmt64,
+        str_kind: (variant % 3) as u8,
+        comp_dir: b"/comp".to_vec(),
+        dirs: vec![b"sub".to_vec()],
+        files: vec![(b"main.c".to_vec(), 0), (b"a.h".to_vec(), 1), (b"b.h".to_vec(), 0)],
+        seqs: vec![SeqSpec { start: AddrSpec::abs(small(0x1000)), rows: vec![(0, 1, 0), (2, 7, 1), (5, 3, 2)], end_off: 9 }],
+    };
+    (rlists, llists, line)
 }
 
 /// Unit 0: root{ref to B} -> A{attribute under test} , B{}; A has a child so that its
@@ -1148,4 +1377,8 @@ pub fn run(ctx: &mut Ctx) {
         let has_sym = format!("{spec:?}").contains("sym: Some");
         run_case(ctx, "rand", &spec, symbolic_plain && has_sym);
     }
+    // ---- abbreviation sharing
+    shape::run(ctx);
+    // ---- write order
+    order::run(ctx);
 }
